@@ -377,6 +377,35 @@ def run(F, chk):
                               "hasUnknown==false for every instantiation" % (fn["name"], show(n["callee"])[:60]))
     chk.floor(R2, 5)
 
+    # ---------------- R3.6 a function that consults hasUnknown protects every block-list change it makes
+    R6 = chk.rule("R3.6", "a NifFile function that tests hasUnknown at all (its author judged it unsafe for files with unknown blocks) "
+                          "makes every change of the block list only where hasUnknown is known to be false: a test that lets a "
+                          "path with unknown blocks through (`!root && hasUnknown` for `||`) is a contradiction of that belief")
+    mutators = set(P) | {f["id"] for f in F.fns.values() if f.get("cls") == HDR and f["short"] in ("DeleteBlock", "DeleteBlockByType", "ReplaceBlock")
+                         and f.get("tmpl") != "pattern"}
+    for fn in sorted(F.fns.values(), key=lambda f: f["id"]):
+        if fn.get("cls") != NIF or fn.get("tmpl") == "pattern" or not fn.get("body"):
+            continue
+        tests = [n for n in walk(fn["body"]) if n["k"] in ("If", "While", "For") and is_node(n.get("cond")) and
+                 any(x["k"] == "Member" and x.get("name") == "hasUnknown" and x.get("owner") == NIF for x in walk(n["cond"]))]
+        if not tests:
+            continue
+        calls = [n for n in walk(fn["body"]) if n["k"] == "Call" and n.get("fid") and
+                 (n["fid"] in mutators or (F.reachable([n["fid"]]) & mutators))]
+        if not calls:
+            continue
+        ids_ = {id(n) for n in calls}
+        col6 = flow.Collect(F, fn, lambda n: id(n) in ids_)
+        col6.run()
+        for n, sts in col6.by_node():
+            ok = all(st is None or U2.guarded_state(st, fn) for st in sts)
+            chk.instance(R6, ok=ok, sample={"fn": fn["name"], "call": (n.get("fn") or "").split("::")[-1], "behind_hasUnknown_false": ok})
+            if not ok:
+                chk.violation("R3.6", "C03/R3.6:%s:%s" % (fn["name"], (n.get("fn") or "?").split("::")[-1]), where(fn, n),
+                              "%s tests hasUnknown but reaches %s on a path where hasUnknown can be true: blocks of a file with unknown "
+                              "block types are deleted or moved" % (fn["name"], n.get("fn")))
+    chk.floor(R6, 3)
+
     # ---------------- R3.3
     for fn in F.fns.values():
         if fn.get("tmpl") == "pattern":
